@@ -261,7 +261,10 @@ partial def sysOfJson (j : Json) : Except String Sys := do
 def summaryJson (s : Summary) : Json :=
   Json.mkObj [("title", match s.title with | some t => Json.str t | none => Json.null),
     ("seats", match s.seats with | some z => Json.str (toString z) | none => Json.null),
-    ("quota", match s.quota with | .name n => Json.mkObj [("name", Json.str n)] | .const n => Json.mkObj [("const", Json.str (toString n))]),
+    ("quota", match s.quota with
+              | .name n => Json.mkObj [("name", Json.str n)]
+              | .const n => Json.mkObj [("const", Json.str (toString n))]
+              | .unknown => Json.str "unknown"),
     ("mandatory", Json.bool s.mandatory),
     ("random", match s.random with | none => Json.null | some none => Json.str "non" | some (some n) => Json.str (toString n))]
 
@@ -364,11 +367,21 @@ def handleStv (op : String) (j : Json) : Option (Except String Json) :=
     | .error e => pure (Json.mkObj [("dump", errJson e)])
     | .ok (h, v) =>
       pure (Json.mkObj [("hdr", Json.arr (h.map hlineJson).toArray), ("votes", Json.arr (v.map vlineJson).toArray),
-        ("loaded", resJson loadedJson (loadStv h v)), ("wf", Json.bool (wfStv d))])
+        ("loaded", resJson loadedJson (loadStv h v [])), ("wf", Json.bool (wfStv d))])
+  | "stv_dump_blt" => some do
+    let d ← VL.Drv.C19.docOfJson (← j.getObjVal? "doc")
+    match dumpStvBlt d with
+    | .error e => pure (Json.mkObj [("dump", errJson e), ("wf", Json.bool (Blt.WFdoc d))])
+    | .ok (h, ls) =>
+      pure (Json.mkObj [("hdr", Json.arr (h.map hlineJson).toArray), ("lines", Json.arr (ls.map lineJson).toArray),
+        ("loaded", resJson loadedJson (loadStv h [] ls)), ("wf", Json.bool (Blt.WFdoc d))])
   | "stv_load" => some do
     let h ← (← (← j.getObjVal? "hdr").getArr?).toList.mapM hlineOfJson
     let v ← (← (← j.getObjVal? "votes").getArr?).toList.mapM vlineOfJson
-    pure (Json.mkObj [("loaded", resJson loadedJson (loadStv h v))])
+    let bl ← (match j.getObjVal? "blt" with
+      | .ok (.arr a) => a.toList.mapM lineOfJson
+      | _ => pure [])
+    pure (Json.mkObj [("loaded", resJson loadedJson (loadStv h v bl))])
   | _ => none
 end Stv
 
@@ -394,9 +407,11 @@ def handle (op : String) (j : Json) : Option (Except String Json) :=
     pure (Json.mkObj [("back", resJson pvalJson back), ("reser", reser)])
   | "blt_dump" => some do
     let d ← docOfJson (← j.getObjVal? "doc")
-    let lines := Blt.dumpBlt d
-    pure (Json.mkObj [("lines", Json.arr (lines.map lineJson).toArray),
-      ("loaded", resJson docJson (Blt.loadBlt lines)), ("wf", Json.bool (Blt.WFdoc d))])
+    match Blt.dumpBlt d with
+    | .error e => pure (Json.mkObj [("dump", errJson e), ("wf", Json.bool (Blt.WFdoc d))])
+    | .ok lines =>
+      pure (Json.mkObj [("lines", Json.arr (lines.map lineJson).toArray),
+        ("loaded", resJson docJson (Blt.loadBlt lines)), ("wf", Json.bool (Blt.WFdoc d))])
   | "blt_clean" => some do
     let line ← j.getObjValAs? String "line"
     pure (Json.mkObj [("clean", Json.str (Blt.cleanLine line))])
